@@ -79,9 +79,14 @@ class Ctx:
                 cmd += ["+nightly"]
                 rustflags += " -Zsanitizer=thread"
                 tdir = os.path.join(self.harness, "target-tsan")
+            elif san == "ovf":
+                # stable toolchain, optimised, but with the integer-overflow checks every `cargo test` / debug build
+                # of the library has: an overflow that silently wraps in the default release build panics here
+                rustflags += " -C overflow-checks=on"
+                tdir = os.path.join(self.harness, "target-ovf")
             cmd += ["build", "--release", "--offline", "--no-default-features", "--features", feats,
                     "--manifest-path", os.path.join(self.harness, "Cargo.toml"), "--target-dir", tdir]
-            if san:
+            if san in ("asan", "tsan"):
                 cmd += ["--target", "x86_64-unknown-linux-gnu"]
             if san == "tsan":
                 cmd += ["-Zbuild-std"]
@@ -92,7 +97,7 @@ class Ctx:
             if p.returncode != 0:
                 tail = "\n".join(p.stdout.splitlines()[-60:])
                 raise BuildFailed(config, san, tail)
-            built = os.path.join(tdir, "x86_64-unknown-linux-gnu" if san else "", "release", "vh")
+            built = os.path.join(tdir, "x86_64-unknown-linux-gnu" if san in ("asan", "tsan") else "", "release", "vh")
             shutil.copy2(built, out + ".tmp")
             os.replace(out + ".tmp", out)
         return out
